@@ -52,7 +52,10 @@ Inductive cerr :=
 | EUnavailable        (* providers.ErrServiceUnavailable *)
 | EApi (code : Z)     (* the *googleapi.Error itself, unmapped *)
 | EOther.             (* any other error *)
-Inductive result := ROk (l : list str) | RErr (e : cerr).
+Inductive result :=
+| ROk (l : list str)        (* a list, in order *)
+| RSet (l : list str)       (* a member SET (groups.MemberSet); [l] lists its elements in any order, repeats allowed *)
+| RErr (e : cerr).
 
 (* google_admin.go:93-106. For 400 the assignment of ErrTokenRevoked is always overwritten. *)
 Definition list_err (code : Z) : cerr :=
@@ -128,11 +131,38 @@ Fixpoint check_prog (gs : list str) (email : str) (acc : list str) : prog :=
         end)
   end.
 
-Inductive op := OList (g : str) (max_depth : nat) | OCheck (gs : list str) (email : str).
+(* ---- the layer above, internal/auth/providers/google.go: GoogleProvider built by NewGoogleProvider shares ONE
+   breaker with its GoogleAdminService (google.go:71-93) and has no other path to the directory ---- *)
+
+(* PopulateMembers, google.go:355-366: the fill function of the group cache = a listing 4 levels deep, as a set *)
+Definition populate_prog (F : nat) (g : str) : prog := list_group F 4 g (fun l => Ret (RSet l)).
+
+(* ValidateGroupMembership, google.go:370-404. [looks] = the groups asked about, each with what the group cache
+   answered for it (None = no member set cached; the cache is an oracle). If any group is uncached the question goes
+   to the directory for ALL groups through CheckMemberships — there is no other exit, in particular none that depends
+   on the breaker's state. *)
+Definition looks_uncached (looks : list (str * option (list str))) : bool :=
+  existsb (fun x => match snd x with None => true | Some _ => false end) looks.
+Definition validate_prog (looks : list (str * option (list str))) (email : str) : prog :=
+  match looks with
+  | [] => Ret (ROk [])                                                    (* :378-380 *)
+  | _ =>
+      if looks_uncached looks then check_prog (map fst looks) email []    (* :398-400 *)
+      else Ret (ROk (map fst (filter (fun x => match snd x with Some set => mem_str email set | None => false end)
+                                     looks)))                              (* :392-394, 402 *)
+  end.
+
+Inductive op :=
+| OList (g : str) (max_depth : nat)                                  (* AdminService.ListMemberships *)
+| OCheck (gs : list str) (email : str)                               (* AdminService.CheckMemberships *)
+| OValidate (looks : list (str * option (list str))) (email : str)   (* GoogleProvider.ValidateGroupMembership *)
+| OPopulate (g : str).                                               (* GoogleProvider.PopulateMembers *)
 Definition prog_of (F : nat) (o : op) : prog :=
   match o with
   | OList g d => list_prog F g d
   | OCheck gs email => check_prog gs email []
+  | OValidate looks email => validate_prog looks email
+  | OPopulate g => populate_prog F g
   end.
 
 (* ---- the concurrent system ---- *)
